@@ -94,6 +94,8 @@ pub fn stmts() -> ZooLang {
             "if a { b;", "a b;", "fn (a) {}", "let a = 1 @;", "{{{ a; }}}", "a;b;c;d;e;f;g;h;", "iff; elsee; fnn; if_x;", "let é = 1;", "1..2...3;", "@ /*a\nb*/ x;", "@/*c*/ /*d*/ @ /*e*/",
             // keyword text used as an identifier (a keyword is only a keyword where the grammar allows it), first leaf of a call
             "a+if(b);", "a*let(b);", "a+fn(b);", "f(else);", "$a; %b;", "$ if;", "a ~x + b; ~y", "let ~p a = ~q 1;", "{ ~a }", "~", "~ let",
+            // an operand, then extras, then the token that decides how the operand is reduced
+            "a + 1 ~b;", "a + 1 /*c*/;", "a + 1 ~b ~c ;", "a + 1 #c\n;",
         ],
         skippable: b" \t\r\n", has_scanner: false,
     }
